@@ -253,9 +253,9 @@ def work_indep(job):
         fa = [e[:2] for e in a['per'].get('A', []) if e[0] != 'rand']
         fb = [e[:2] for e in b['per'].get('A', []) if e[0] != 'rand']
         if fa == fb and ra != rb:
-            acc.violation('random-stream-depends-on-other-routine', ra, rb,
-                          'values logged by A with / without B drawing',
-                          case)
+            acc.violation('random-stream-depends-on-other-routine', case,
+                          ra, rb,
+                          'values logged by A with / without B drawing')
         acc.case(case, bool(ra), ra)
     return acc.result()
 
@@ -281,14 +281,20 @@ def replay(job):
             code = ('import sys, json; sys.path[:0] = [%r, %r];'
                     'import sc3; sc3.init("nrt", verbosity="CRITICAL");'
                     'from mc import rtprog;'
-                    'r = rtprog.run_nrt(json.loads(sys.argv[1]));'
-                    'print(r["raw"])') % (core.REPO, core.VERIF)
+                    'from mc.checks import c10;'
+                    'p = json.loads(sys.argv[1]);'
+                    'r = rtprog.run_nrt(p);'
+                    'print(json.dumps([r["raw"], '
+                    'c10.observe(p, r, "nrt")["per"]]))') % (core.REPO,
+                                                             core.VERIF)
             env = dict(__import__('os').environ, PYTHONHASHSEED=hs)
             p = subprocess.run([sys.executable, '-W', 'ignore', '-c', code,
                                 json.dumps(prog)], capture_output=True,
                                text=True, env=env, timeout=120)
-            outs.append(p.stdout.strip())
-        return {'violates': outs[0] != outs[1], 'raw': [o[:80] for o in outs]}
+            outs.append(p.stdout.strip().splitlines()[-1]
+                        if p.stdout.strip() else p.stderr[-300:])
+        return {'violates': outs[0] != outs[1],
+                'raw': [o[-200:] for o in outs]}
     # mode difference: NRT here, RT in a sub-process worker of mode rt
     o_nrt = observe(prog, rtprog.run_nrt(prog), 'nrt')
     o_rt = _rt_in_subprocess(prog, case.get('choices', []))
@@ -318,6 +324,13 @@ def _rt_in_subprocess(prog, choices):
     if p.returncode != 0:
         raise core.HarnessError('RT sub-process failed: ' + p.stderr[-1500:])
     return json.loads(p.stdout.strip().splitlines()[-1])
+
+
+def replay_equal(v, a, b):
+    """The property itself is about determinism: when the library draws
+    from an unseeded generator two replays legitimately differ in the values
+    they observe; it is enough that both replays violate."""
+    return bool(a.get('violates')) and bool(b.get('violates'))
 
 
 def chunked(items, n):
